@@ -1492,6 +1492,12 @@ func (g *c15Gen) compatible(a, b string) bool {
 		return m
 	}
 	isIns := func(op string) bool { return op == "ins" }
+	// an inserted empty ServerKeyExchange is not combined with other edits: next to a removed or displaced message
+	// (or another insertion at the same place) it can land in the slot where a ServerKeyExchange is expected, and what the endpoint then does depends
+	// on the body (key-exchange parameters), which the automaton does not model
+	if strings.HasSuffix(a, ":skx0") || strings.HasSuffix(b, ":skx0") {
+		return false
+	}
 	if isIns(oa) && isIns(ob) {
 		return true
 	}
